@@ -517,4 +517,274 @@ theorem Ext.fallibleNodes_eq {C : Nat → Prop} {g g' : Graph} (h : Ext C g g') 
     simp [hany]
   rw [h1, h2]; simp
 
+theorem attachObservers_nodes : ∀ (obs : List Nat) (g : Graph) (enew child : Nat) (prev : Option Nat),
+    (attachObservers g enew child obs prev).nodes = g.nodes ++ obs.map Kind.observer
+  | [], g, _, _, prev => by
+    cases prev <;> simp [attachObservers, addEdge]
+  | o :: rest, g, enew, child, prev => by
+    simp only [attachObservers, addNode]
+    rw [attachObservers_nodes rest]
+    cases prev <;> simp [addEdge]
+
+/-! ### the chain the splice builds -/
+
+/-- the edges `attachObservers` adds, in closed form -/
+def genEdges (enew child : Nat) : Nat → Nat → Option Nat → List Edge
+  | _, 0, prev =>
+    match prev with
+    | some p => [⟨p, child, .before⟩]
+    | none => []
+  | n0, k + 1, prev =>
+    (match prev with
+     | some p => [(⟨p, n0, .before⟩ : Edge)]
+     | none => []) ++ [⟨enew, n0, .shared⟩] ++ genEdges enew child (n0 + 1) k (some n0)
+
+theorem attachObservers_edges (enew child : Nat) : ∀ (obs : List Nat) (g : Graph) (prev : Option Nat),
+    (attachObservers g enew child obs prev).edges = g.edges ++ genEdges enew child g.size obs.length prev
+  | [], g, prev => by
+    cases prev <;> simp [attachObservers, genEdges, addEdge]
+  | o :: rest, g, prev => by
+    simp only [attachObservers, List.length_cons, genEdges]
+    rw [attachObservers_edges enew child rest]
+    cases prev <;> simp [addEdge, addNode, Graph.size]
+
+/-- which happens-before edges the splice adds -/
+theorem genEdges_before (enew child : Nat) : ∀ (k n0 : Nat) (prev : Option Nat) (e : Edge),
+    e ∈ genEdges enew child n0 k prev → e.kind = .before →
+      (e.dst = child ∧ ((k = 0 ∧ prev = some e.src) ∨ (0 < k ∧ e.src = n0 + k - 1))) ∨
+      (n0 < e.dst ∧ e.dst < n0 + k ∧ e.src + 1 = e.dst) ∨
+      (0 < k ∧ e.dst = n0 ∧ prev = some e.src)
+  | 0, n0, prev, e, he, _ => by
+    cases prev with
+    | none => simp [genEdges] at he
+    | some p =>
+      simp only [genEdges, List.mem_singleton] at he
+      subst he
+      exact Or.inl ⟨rfl, Or.inl ⟨rfl, rfl⟩⟩
+  | k + 1, n0, prev, e, he, hk => by
+    simp only [genEdges, List.mem_append, List.mem_singleton] at he
+    rcases he with (he | he) | he
+    · cases prev with
+      | none => simp at he
+      | some p =>
+        simp only [List.mem_singleton] at he
+        subst he
+        exact Or.inr (Or.inr ⟨by omega, rfl, rfl⟩)
+    · subst he; cases hk
+    · rcases genEdges_before enew child k (n0 + 1) (some n0) e he hk with ⟨hd, h⟩ | ⟨h1, h2, h3⟩ | ⟨h1, h2, h3⟩
+      · refine Or.inl ⟨hd, Or.inr ⟨by omega, ?_⟩⟩
+        rcases h with ⟨hk0, hp⟩ | ⟨hk0, hs⟩
+        · cases hp; omega
+        · omega
+      · exact Or.inr (Or.inl ⟨by omega, by omega, h3⟩)
+      · cases h3
+        exact Or.inr (Or.inl ⟨by omega, by omega, by omega⟩)
+
+/-- … and it does add the links of the chain. -/
+theorem genEdges_links (enew child : Nat) : ∀ (k n0 : Nat) (prev : Option Nat),
+    (∀ i, 0 < i → i < k → (⟨n0 + i - 1, n0 + i, .before⟩ : Edge) ∈ genEdges enew child n0 k prev) ∧
+    (0 < k → (⟨n0 + k - 1, child, .before⟩ : Edge) ∈ genEdges enew child n0 k prev)
+  | 0, _, _ => ⟨fun i h1 h2 => by omega, fun h => by omega⟩
+  | k + 1, n0, prev => by
+    obtain ⟨ih1, ih2⟩ := genEdges_links enew child k (n0 + 1) (some n0)
+    constructor
+    · intro i hi hik
+      simp only [genEdges, List.mem_append, List.mem_singleton]
+      right
+      by_cases h1 : i = 1
+      · subst h1
+        -- the first link is the `prev` edge of the recursive call
+        cases k with
+        | zero => omega
+        | succ k' => simp [genEdges]
+      · have := ih1 (i - 1) (by omega) (by omega)
+        have e1 : n0 + 1 + (i - 1) - 1 = n0 + i - 1 := by omega
+        have e2 : n0 + 1 + (i - 1) = n0 + i := by omega
+        rw [e1, e2] at this
+        exact this
+    · intro _
+      simp only [genEdges, List.mem_append, List.mem_singleton]
+      right
+      cases k with
+      | zero => simp [genEdges]
+      | succ k' =>
+        have := ih2 (by omega)
+        have e1 : n0 + 1 + (k' + 1) - 1 = n0 + (k' + 1 + 1) - 1 := by omega
+        rw [e1] at this
+        exact this
+
+theorem mem_unitBefores {g : Graph} {p n : Nat} :
+    p ∈ unitBefores g n ↔ p < g.size ∧ isUnit (g.kind p) = true ∧ ∃ e ∈ g.edges, e.src = p ∧ e.dst = n ∧ e.kind = .before := by
+  simp only [unitBefores, List.mem_filter, mem_befores]
+  constructor
+  · rintro ⟨⟨h1, h2⟩, h3⟩; exact ⟨h1, h3, h2⟩
+  · rintro ⟨h1, h3, h2⟩; exact ⟨⟨h1, h2⟩, h3⟩
+
+theorem unitBefores_eq_filter (g : Graph) (n : Nat) :
+    unitBefores g n = (List.range g.size).filter (fun p =>
+      g.edges.any (fun e => e.src == p && e.dst == n && e.kind == .before) && isUnit (g.kind p)) := by
+  simp [unitBefores, Graph.befores, List.filter_filter, Bool.and_comm]
+
+theorem filter_singleton_of {l : List Nat} {a : Nat} {q : Nat → Bool} (hnd : l.Nodup) (ha : a ∈ l) (hq : q a = true)
+    (hall : ∀ n ∈ l, q n = true → n = a) : l.filter q = [a] := by
+  induction l with
+  | nil => cases ha
+  | cons b l ih =>
+    have hnd' := List.nodup_cons.mp hnd
+    rcases List.mem_cons.mp ha with rfl | ha
+    · simp only [List.filter_cons, hq, ↓reduceIte, List.cons.injEq, true_and]
+      apply List.filter_eq_nil_iff.mpr
+      intro n hn hqn
+      have := hall n (List.mem_cons_of_mem _ hn) hqn
+      subst this
+      exact hnd'.1 hn
+    · have hb : q b = false := by
+        cases hqb : q b with
+        | false => rfl
+        | true =>
+          have := hall b List.mem_cons_self hqb
+          subst this
+          exact absurd ha hnd'.1
+      simp only [List.filter_cons, hb, Bool.false_eq_true, ↓reduceIte]
+      exact ih hnd'.2 ha (fun n hn => hall n (List.mem_cons_of_mem _ hn))
+
+/-- **the chain the splice builds for one error handler**: in `attachObservers g enew child obs none`, for a
+    `child` in front of which nothing is inlined yet, the chain of output-less nodes that happen before `child`
+    is exactly the new nodes, in order, and they are the observers `obs`, in order. -/
+theorem attachObservers_chain (g : Graph) (hc : Closed g) (enew child : Nat) (hchild : child < g.size)
+    (hub : unitBefores g child = []) (obs : List Nat) :
+    chainOf (attachObservers g enew child obs none) (attachObservers g enew child obs none).size child =
+        (List.range obs.length).map (g.size + ·) ∧
+    ∀ i (hi : i < obs.length), (attachObservers g enew child obs none).kind (g.size + i) = .observer obs[i] := by
+  have hnodes := attachObservers_nodes obs g enew child none
+  have hedges := attachObservers_edges enew child obs g none
+  generalize hg' : attachObservers g enew child obs none = g' at hnodes hedges ⊢
+  have hsize : g'.size = g.size + obs.length := by simp [Graph.size, hnodes]
+  have hkold : ∀ n, n < g.size → g'.kind n = g.kind n := by
+    intro n hn
+    simp only [Graph.kind, hnodes, List.getD_eq_getElem?_getD]
+    rw [List.getElem?_append_left hn]
+  have hknew : ∀ i (hi : i < obs.length), g'.kind (g.size + i) = .observer obs[i] := by
+    intro i hi
+    simp only [Graph.kind, hnodes, List.getD_eq_getElem?_getD]
+    rw [List.getElem?_append_right (by simp [Graph.size])]
+    simp [Graph.size, hi]
+  refine ⟨?_, hknew⟩
+  -- the happens-before edges of `g'` that end in a new node or in `child`
+  have hbef : ∀ e ∈ g'.edges, e.kind = .before → e.dst = child ∨ g.size ≤ e.dst →
+      e ∈ g.edges ∨ e ∈ genEdges enew child g.size obs.length none := by
+    intro e he _ _
+    rw [hedges] at he
+    exact List.mem_append.mp he
+  -- what is inlined in front of the `i`-th new node
+  have hnew : ∀ i, i < obs.length → unitBefores g' (g.size + i) = if i = 0 then [] else [g.size + i - 1] := by
+    intro i hi
+    split
+    · rename_i hi0
+      subst hi0
+      rw [unitBefores_eq_filter]
+      apply List.filter_eq_nil_iff.mpr
+      intro p _ hq
+      simp only [Bool.and_eq_true, List.any_eq_true, beq_iff_eq] at hq
+      obtain ⟨⟨e, he, ⟨⟨_, hd⟩, hk⟩⟩, _⟩ := hq
+      rw [hedges] at he
+      rcases List.mem_append.mp he with he | he
+      · have := (hc e he).2
+        omega
+      · rcases genEdges_before enew child _ _ none e he hk with ⟨h1, _⟩ | ⟨h1, _, _⟩ | ⟨_, _, h3⟩
+        · omega
+        · omega
+        · cases h3
+    · rename_i hi0
+      rw [unitBefores_eq_filter]
+      apply filter_singleton_of List.nodup_range
+      · exact List.mem_range.mpr (by omega)
+      · have hlink := (genEdges_links enew child obs.length g.size none).1 i (by omega) hi
+        have hk := hknew (i - 1) (by omega)
+        have e1 : g.size + (i - 1) = g.size + i - 1 := by omega
+        rw [e1] at hk
+        simp only [Bool.and_eq_true, List.any_eq_true, beq_iff_eq]
+        refine ⟨⟨⟨g.size + i - 1, g.size + i, .before⟩, ?_, ⟨⟨rfl, rfl⟩, rfl⟩⟩, by rw [hk]; rfl⟩
+        rw [hedges]; exact List.mem_append_right _ hlink
+      · intro p _ hq
+        simp only [Bool.and_eq_true, List.any_eq_true, beq_iff_eq] at hq
+        obtain ⟨⟨e, he, ⟨⟨hs, hd⟩, hk⟩⟩, _⟩ := hq
+        rw [hedges] at he
+        rcases List.mem_append.mp he with he | he
+        · have := (hc e he).2
+          omega
+        · rcases genEdges_before enew child _ _ none e he hk with ⟨h1, _⟩ | ⟨_, _, h3⟩ | ⟨_, _, h3⟩
+          · omega
+          · omega
+          · cases h3
+  -- the chain in front of the `i`-th new node
+  have hchain : ∀ i, i < obs.length → ∀ fuel, i < fuel →
+      chainOf g' fuel (g.size + i) = (List.range i).map (g.size + ·) := by
+    intro i
+    induction i with
+    | zero =>
+      intro hi fuel hf
+      cases fuel with
+      | zero => omega
+      | succ f =>
+        have h0 := hnew 0 hi
+        simp only [Nat.add_zero, ↓reduceIte] at h0
+        simp [chainOf, h0]
+    | succ j ih =>
+      intro hi fuel hf
+      cases fuel with
+      | zero => omega
+      | succ f =>
+        simp only [chainOf, hnew (j + 1) hi, Nat.add_one_ne_zero, ↓reduceIte]
+        have e1 : g.size + (j + 1) - 1 = g.size + j := by omega
+        rw [e1, ih (by omega) f (by omega), List.range_succ]
+        simp
+  cases hk : obs.length with
+  | zero =>
+    -- no observers: nothing was added in front of `child`
+    have hnil : obs = [] := List.length_eq_zero_iff.mp hk
+    subst hnil
+    have : g' = g := by rw [← hg']; rfl
+    subst this
+    have hsz : 0 < g'.size := by omega
+    cases hs : g'.size with
+    | zero => omega
+    | succ f => simp [chainOf, hub]
+  | succ k =>
+    have hlast : unitBefores g' child = [g.size + k] := by
+      rw [unitBefores_eq_filter]
+      apply filter_singleton_of List.nodup_range
+      · exact List.mem_range.mpr (by omega)
+      · have hlink := (genEdges_links enew child obs.length g.size none).2 (by omega)
+        have hkk := hknew k (by omega)
+        simp only [Bool.and_eq_true, List.any_eq_true, beq_iff_eq]
+        have e1 : g.size + obs.length - 1 = g.size + k := by omega
+        rw [e1] at hlink
+        refine ⟨⟨⟨g.size + k, child, .before⟩, ?_, ⟨⟨rfl, rfl⟩, rfl⟩⟩, by rw [hkk]; rfl⟩
+        rw [hedges]; exact List.mem_append_right _ hlink
+      · intro p hp hq
+        simp only [Bool.and_eq_true, List.any_eq_true, beq_iff_eq] at hq
+        obtain ⟨⟨e, he, ⟨⟨hs, hd⟩, hkb⟩⟩, hu⟩ := hq
+        rw [hedges] at he
+        rcases List.mem_append.mp he with he | he
+        · -- an old happens-before predecessor of `child` without output: excluded by `hub`
+          exfalso
+          have hpl : p < g.size := by rw [← hs]; exact (hc e he).1
+          have : p ∈ unitBefores g child := by
+            apply mem_unitBefores.mpr
+            refine ⟨hpl, ?_, e, he, hs, hd, hkb⟩
+            rw [← hkold p hpl]; exact hu
+          rw [hub] at this; cases this
+        · rcases genEdges_before enew child _ _ none e he hkb with ⟨_, h | h⟩ | ⟨h1, _, _⟩ | ⟨_, _, h3⟩
+          · omega
+          · omega
+          · omega
+          · cases h3
+    rw [hsize, hk]
+    have hf : g.size + (k + 1) = (g.size + k) + 1 := by omega
+    rw [hf]
+    simp only [chainOf, hlast]
+    rw [hchain k (by omega) (g.size + k) (by omega), List.range_succ]
+    simp
+
 end Pxv.Err
